@@ -284,13 +284,12 @@ Fixpoint drop_positions (i : Z) (drop : list Z) (xs : list jval) : list jval :=
                 else x :: drop_positions (i + 1) drop xs'
   end.
 
-(* json.Marshal / yaml.Marshal of a nil []any *)
-Definition marshal_nil_array (json : bool) : jval := if json then JNull else JArr [].
-
+(* the marshaller on a nil []any: utils/json.Marshal turns `null` into the
+   error "no data returned"; yaml.Marshal prints `[]` *)
 Definition ito_not_array (json : bool) (params : list bytes) (xs : list jval) : Outcome out :=
   obind (not_positions params (zlen xs)) (fun drop =>
   match drop_positions 0 drop xs with
-  | [] => Ok (OutVal (marshal_nil_array json))
+  | [] => if json then Err E_MARSHAL else Ok (OutVal (JArr []))
   | l => Ok (OutVal (JArr l))
   end).
 
